@@ -24,7 +24,8 @@ run_slot() {
 import json,sys
 m=sys.argv[1]; r=json.load(open(m+'/sens_eval.json'))['results']
 ok=any(v['exit']==1 for v in r.values())
-json.dump({'checks':{k:v['exit'] for k,v in r.items()},'caught':ok},open(m+'/sens.json','w'))
+import os
+json.dump({'checks':{k:v['exit'] for k,v in r.items()},'caught':ok},open(m+'/'+os.environ.get('SENS_OUT','sens.json'),'w'))
 print(('CAUGHT ' if ok else 'MISSED ')+m.split('/')[-1], {k:v['exit'] for k,v in r.items()})
 PY
   done
